@@ -46,6 +46,48 @@ def plus_one_of(term, pred):
     return t.k == "bin" and t.a[0].startswith("Add") and pred(t.a[1]) and t.a[2].k == "const" and t.a[2].a == ("int", 1)
 
 
+def shared_counters(ctx, rule):
+    """every tree (meta, new, recovered) is configured with the database-wide generator and the tracker's visible counter (shared
+    with C11: a tree with a private generator stamps bulk-ingested tables with numbers below recovered data)"""
+    F = ctx.F
+    # ---- R-C06.4 one shared pair of counters
+    sites = [(F.fns[f], b) for f, b in ctx.cg.callers("lsm_tree::Config::new") if f in F.fns]
+    ctx.floor(rule, "lsm_tree::Config::new sites", sites, 4)
+    for fn, b in sites:
+        og = ctx.og(fn)
+        t = fn.term(b)
+        gen = og.of_operand(t["args"][1])
+        vis = og.of_operand(t["args"][2])
+        ctx.count_sites()
+        if fn.id in ("db::Database::recover", "db::Database::create_new"):
+            # meta tree: two fresh counters that become the database's generator / the tracker's visible counter
+            sup = None
+            trk = None
+            mk = None
+            for blk in fn.blocks:
+                for st in blk["s"]:
+                    rv = st["rv"]
+                    if rv["k"] == "agg" and rv.get("adt") == "supervisor::SupervisorInner":
+                        d = dict(zip(rv["fields"], rv["ops"]))
+                        sup = og.of_operand(d["seqno"])
+                        trk = og.of_operand(d["snapshot_tracker"])
+            for bb, tt in fn.calls():
+                if A.cname(tt) == "meta_keyspace::MetaKeyspace::new":
+                    mk = (og.of_operand(tt["args"][2]), og.of_operand(tt["args"][3]))
+            trk_arg = trk.a[1][0] if (trk is not None and trk.k == "call" and trk.a[0] == "snapshot_tracker::SnapshotTracker::new") else None
+            ok = sup is not None and trk_arg is not None and mk is not None and \
+                A.tkey(gen) == A.tkey(sup) == A.tkey(mk[0]) and A.tkey(vis) == A.tkey(trk_arg) == A.tkey(mk[1]) and A.tkey(gen) != A.tkey(vis)
+            ctx.ob(rule, fn, "meta-tree-shares-both-counters", ok,
+                   "meta tree, Supervisor.seqno, SnapshotTracker and MetaKeyspace share generator %s and visible counter %s (distinct)" % (A.tkey(gen)[:70], A.tkey(vis)[:70]) if ok
+                   else "the meta tree / supervisor / tracker do not share one (generator, visible) counter pair: gen=%s vis=%s sup=%s trk=%s" % (A.tkey(gen)[:60], A.tkey(vis)[:60], A.tkey(sup)[:60] if sup else None, A.tkey(trk_arg)[:60] if trk_arg else None), fn.loc(b))
+        else:
+            okg = any(A.ends_with_field(x, "supervisor", "seqno") for x in A.alternatives(gen))
+            okv = vis.k == "call" and vis.a[0] == "snapshot_tracker::SnapshotTracker::get_ref" and any(A.ends_with_field(x, "supervisor", "snapshot_tracker") for x in vis.a[1])
+            ctx.ob(rule, fn, "tree-shares-both-counters", okg and okv,
+                   "Config::new(path, generator := %s, visible := %s)" % (A.tstr(gen)[:60], A.tstr(vis)[:80]) + ("" if okg and okv else " — this tree would not see / advance the database-wide counters"), fn.loc(b))
+
+
+
 def run(ctx):
     F = ctx.F
     entries = R.write_entries(ctx)
@@ -127,41 +169,7 @@ def run(ctx):
         ok = A.access_path(term) == ("P1", "seqno")
         ctx.ob("R-C06.3", gr, "get_ref-hands-out-the-same-counter", ok, "get_ref() = self.seqno.clone()" if ok else "get_ref returns %s" % A.tstr(term))
 
-    # ---- R-C06.4 one shared pair of counters
-    sites = [(F.fns[f], b) for f, b in ctx.cg.callers("lsm_tree::Config::new") if f in F.fns]
-    ctx.floor("R-C06.4", "lsm_tree::Config::new sites", sites, 4)
-    for fn, b in sites:
-        og = ctx.og(fn)
-        t = fn.term(b)
-        gen = og.of_operand(t["args"][1])
-        vis = og.of_operand(t["args"][2])
-        ctx.count_sites()
-        if fn.id in ("db::Database::recover", "db::Database::create_new"):
-            # meta tree: two fresh counters that become the database's generator / the tracker's visible counter
-            sup = None
-            trk = None
-            mk = None
-            for blk in fn.blocks:
-                for st in blk["s"]:
-                    rv = st["rv"]
-                    if rv["k"] == "agg" and rv.get("adt") == "supervisor::SupervisorInner":
-                        d = dict(zip(rv["fields"], rv["ops"]))
-                        sup = og.of_operand(d["seqno"])
-                        trk = og.of_operand(d["snapshot_tracker"])
-            for bb, tt in fn.calls():
-                if A.cname(tt) == "meta_keyspace::MetaKeyspace::new":
-                    mk = (og.of_operand(tt["args"][2]), og.of_operand(tt["args"][3]))
-            trk_arg = trk.a[1][0] if (trk is not None and trk.k == "call" and trk.a[0] == "snapshot_tracker::SnapshotTracker::new") else None
-            ok = sup is not None and trk_arg is not None and mk is not None and \
-                A.tkey(gen) == A.tkey(sup) == A.tkey(mk[0]) and A.tkey(vis) == A.tkey(trk_arg) == A.tkey(mk[1]) and A.tkey(gen) != A.tkey(vis)
-            ctx.ob("R-C06.4", fn, "meta-tree-shares-both-counters", ok,
-                   "meta tree, Supervisor.seqno, SnapshotTracker and MetaKeyspace share generator %s and visible counter %s (distinct)" % (A.tkey(gen)[:70], A.tkey(vis)[:70]) if ok
-                   else "the meta tree / supervisor / tracker do not share one (generator, visible) counter pair: gen=%s vis=%s sup=%s trk=%s" % (A.tkey(gen)[:60], A.tkey(vis)[:60], A.tkey(sup)[:60] if sup else None, A.tkey(trk_arg)[:60] if trk_arg else None), fn.loc(b))
-        else:
-            okg = any(A.ends_with_field(x, "supervisor", "seqno") for x in A.alternatives(gen))
-            okv = vis.k == "call" and vis.a[0] == "snapshot_tracker::SnapshotTracker::get_ref" and any(A.ends_with_field(x, "supervisor", "snapshot_tracker") for x in vis.a[1])
-            ctx.ob("R-C06.4", fn, "tree-shares-both-counters", okg and okv,
-                   "Config::new(path, generator := %s, visible := %s)" % (A.tstr(gen)[:60], A.tstr(vis)[:80]) + ("" if okg and okv else " — this tree would not see / advance the database-wide counters"), fn.loc(b))
+    shared_counters(ctx, "R-C06.4")
 
     # ---- R-C06.5 scans (and scan-derived single results) read at a registered view's instant
     from . import C05
@@ -183,6 +191,7 @@ def run(ctx):
             ctx.ob("R-C06.5", fn, "scan-%s#%d-at-view-instant" % (leaf, sum(1 for bb, tt in C05.tree_read_calls(fn) if bb < b and A.cname(tt) == A.cname(t)) + 1), ok,
                    "tree.%s reads at %s" % (leaf, ", ".join(A.tstr(x)[:80] for x in terms)) + ("" if ok else " — not the instant of a registered view: the scan looks into batches that are still being applied (seqno drawn, not yet published)"), fn.loc(b))
     ctx.floor("R-C06.5", "multi-key tree reads outside the meta keyspace", nscan, 12)
+    C05.view_delegation(ctx, "R-C06.5")
 
     # ---- R-C06.6 nothing raises the visible counter past a batch that is still being applied.
     # Every lsm-tree entry point that installs a new tree version draws a seqno from the SHARED generator and raises the
